@@ -141,11 +141,20 @@ let run_c03 (input : S.t) (observed : S.t) : S.t * string =
   | S.L (S.A "bytes" :: S.A entry :: data :: rest) ->
     let cls = (match observed with S.L (S.A "class" :: S.A c :: _) -> c | _ -> "?") in
     let verdict = if cls = "ok" || cls = "error" then "holds" else "fails:" ^ cls in
-    if entry = "value" && rest = [] then begin
+    (* reader modes of the value entry that run in process: r1 (EOF with the last bytes) and r2 (one byte
+       per Read) deliver the same bytes; r3kN fails after N bytes: the model's failing reader *)
+    let mode = (match rest with [] -> Some (None) | [S.A "r1"] | [S.A "r2"] -> Some None
+                              | [S.A r] when String.length r > 3 && String.sub r 0 3 = "r3k" ->
+                                (match int_of_string_opt (String.sub r 3 (String.length r - 3)) with Some k -> Some (Some k) | None -> None)
+                              | _ -> None) in
+    if entry = "value" && mode <> None then begin
       let ftab = find_sec "floats" observed in
       let float_ok = float_table ftab in
+      let bytes = bytes_of_hex data in
+      let rec take k l = if k <= 0 then [] else (match l with [] -> [] | x :: r -> x :: take (k - 1) r) in
+      let (bytes, flt) = (match mode with Some (Some k) -> (take k bytes, true) | _ -> (bytes, false)) in
       let expected =
-        (match Model.parse_value float_ok (bytes_of_hex data) false with
+        (match Model.parse_value float_ok bytes flt with
          | ROk (v, _) -> S.L [S.A "class"; S.A "ok"; norm_floats (sexp_of_pv v); ftab]
          | RErr _ -> S.L [S.A "class"; S.A "error"; S.A "-"; ftab]
          | RFuel -> S.L [S.A "class"; S.A "fuel"; S.A "-"; ftab]) in
